@@ -114,6 +114,7 @@ type cluster struct {
 	errs      map[string]int
 	cache     int
 	mkStore   func(m *member) hg.Store
+	spellAlways bool // every join request spells the key in lower-case hex
 	// every other join request spells the joiner's key in lower-case hex (a valid spelling of the same key)
 	spellJoins bool
 	joinsSpelled int
@@ -194,7 +195,7 @@ func (cl *cluster) startJoin(host *member) *member {
 	j.joiner = true
 	cl.mkCore(j, host.core.Peers().Peers)
 	p := *j.peer
-	if cl.spellJoins && cl.rng.Intn(2) == 0 {
+	if cl.spellAlways || (cl.spellJoins && cl.rng.Intn(2) == 0) {
 		p.PubKeyHex = lowerAfterPrefix(p.PubKeyHex)
 		cl.joinsSpelled++
 	}
